@@ -5,7 +5,7 @@
 use crate::rng::Rng;
 use crate::tygen::{Def, Module};
 
-pub const KINDS: usize = 18;
+pub const KINDS: usize = 19;
 
 /// `(tag, items)`; `items` goes inside the bridge module
 pub fn extras(rng: &mut Rng, m: &Module, option: bool) -> (String, String) {
@@ -132,6 +132,8 @@ pub fn snippet(rng: &mut Rng, k: usize, opaque: &str, enm: Option<&str>, option:
             ("same-name-namespaces", format!(
                 "    #[diplomat::attr(auto, namespace = \"{a}\")]\n    #[diplomat::attr(cpp, rename = \"Point\")]\n    pub struct XtGeoPoint {{ pub x: {p} }}\n    #[diplomat::attr(auto, namespace = \"{b}\")]\n    #[diplomat::attr(cpp, rename = \"Point\")]\n    pub struct XtScreenPoint {{ pub x: {p}, pub y: u8 }}\n    #[diplomat::opaque]\n    #[diplomat::attr(auto, namespace = \"{a}\")]\n    #[diplomat::attr(cpp, rename = \"Handle\")]\n    pub struct XtGeoHandle;\n    #[diplomat::opaque]\n    #[diplomat::attr(auto, namespace = \"{b}\")]\n    #[diplomat::attr(cpp, rename = \"Handle\")]\n    pub struct XtScreenHandle;\n    #[diplomat::opaque]\n    pub struct XtProjector;\n    impl XtProjector {{\n        pub fn project(&self, p: XtGeoPoint) -> XtScreenPoint {{ unimplemented!() }}\n        pub fn handles<'a>(&'a self, g: &'a XtGeoHandle, s: &'a XtScreenHandle) -> &'a XtScreenHandle {{ unimplemented!() }}\n    }}\n"))
         }
+        18 => ("nested-borrowing-structs",
+            "    #[diplomat::opaque]\n    pub struct XtNode(pub u32);\n    pub struct XtPair<'p, 'q> { pub first: &'p XtNode, pub second: &'q XtNode }\n    pub struct XtWindow<'a> { pub pair: XtPair<'a, 'a>, pub tag: u8 }\n    pub struct XtCross<'a, 'b> { pub pair: XtPair<'b, 'a>, pub other: XtPair<'a, 'a> }\n    #[diplomat::opaque]\n    pub struct XtView<'a>(pub &'a XtNode);\n    impl<'a> XtView<'a> {\n        pub fn from_window(w: XtWindow<'a>) -> Box<XtView<'a>> { unimplemented!() }\n        pub fn from_cross<'b>(c: XtCross<'a, 'b>) -> Box<XtView<'a>> { unimplemented!() }\n    }\n".to_string()),
         17 => ("static-accessors", format!(
             "    #[diplomat::opaque]\n    pub struct XtStat;\n    impl XtStat {{\n        #[diplomat::attr(nanobind, getter = \"level\")]\n        pub fn level() -> u8 {{ unimplemented!() }}\n        #[diplomat::attr(nanobind, setter = \"level\")]\n        pub fn set_level(value: u8) {{ unimplemented!() }}\n        #[diplomat::attr(nanobind, setter = \"depth\")]\n        pub fn set_depth(value: {p}) {{ unimplemented!() }}\n        #[diplomat::attr(nanobind, getter = \"depth\")]\n        pub fn depth() -> {p} {{ unimplemented!() }}\n    }}\n    pub struct XtStatS {{ pub a: u8 }}\n    impl XtStatS {{\n        #[diplomat::attr(nanobind, getter = \"limit\")]\n        pub fn limit() -> {p} {{ unimplemented!() }}\n        #[diplomat::attr(nanobind, setter = \"limit\")]\n        pub fn set_limit(value: {p}) {{ unimplemented!() }}\n        #[diplomat::attr(nanobind, setter = \"span\")]\n        pub fn set_span(value: u8) {{ unimplemented!() }}\n        #[diplomat::attr(nanobind, getter = \"span\")]\n        pub fn span() -> u8 {{ unimplemented!() }}\n    }}\n")),
         16 => ("aggregate-layouts", format!(
